@@ -457,7 +457,8 @@ class Base:
         """
         a = self.canonicalize()
         b = other.canonicalize()
-        return a[:2] == b[:2] and a[2] is b[2]
+        # the variable maps are keyed by the original variables, so only the counters and the canonical forms compare
+        return a[1] == b[1] and a[2] is b[2]
 
     #
     # Annotations
